@@ -7,6 +7,10 @@ from pyvc import interp, contract as C
 from pyvc.source import SourceIndex
 modname, clsname = sys.argv[1], sys.argv[2]
 tmo = int(sys.argv[3]) if len(sys.argv) > 3 else 10000
+from contracts import registry
+PID = os.environ.get("DBG_PROP")
+for m in (registry.PROPERTIES[PID]["modules"] if PID else []):      # same import order as pyvc.check (class ids depend on it)
+    importlib.import_module(m)
 mod = importlib.import_module(modname)
 cs = [c for c in mod.CONTRACTS if type(c).__name__ == clsname or getattr(c, "label", "") == clsname]
 orig = interp.Path.oblige
@@ -24,9 +28,7 @@ def oblige(self, name, formula, kind="post", detail="", assume_after=True):
         self.assume(z3.simplify(formula))
     return ob
 interp.Path.oblige = oblige
-from contracts import registry
 allc = []
-PID = os.environ.get("DBG_PROP")
 for pid, info in registry.PROPERTIES.items():
     for m in (info["modules"] if pid == PID else []):
         for c in importlib.import_module(m).CONTRACTS:
